@@ -17,6 +17,7 @@ import JPV.Spec.NonDet
 import JPV.Spec.IRegexp
 import JPV.Impl.Regex
 import JPV.Impl.Graph
+import JPV.Impl.NdGraph
 namespace JPV.Driver
 open JPV.Wire
 
@@ -306,6 +307,37 @@ def handle (fields : List String) : String :=
             (match out.2 with | none => "end" | some e => "err " ++ encErr e)
         | none => "bad-request"
       | _, _, _ => "bad-request"
+  | ["g.ndvisit", max, fuel, root, heap, script] =>
+      -- heap: (heap (id D|L (key child) ...) ...); child: a container id or `s` (a scalar)
+      let decKid : Sexp → Option (Key × Impl.G.Child)
+        | .list [.atom k, .atom c] =>
+          let ch : Option Impl.G.Child := if c = "s" then some .scalar else c.toNat?.map .ref
+          (match ch with
+           | none => none
+           | some cc =>
+             (match k.toInt? with
+              | some i => some (.idx i, cc)
+              | none => (decStr k).map (fun s => (.name s, cc))))
+        | _ => none
+      let decEntry : Sexp → Option (Nat × Bool × List (Key × Impl.G.Child))
+        | .list (.atom i :: .atom kind :: kids) => do
+            let n ← i.toNat?
+            let ks ← kids.mapM decKid
+            pure (n, kind = "D", ks)
+        | _ => none
+      match max.toInt?, fuel.toNat?, root.toNat?, readSexp heap, (readSexp script).bind decScript with
+      | some mx, some fu, some r, some (.list (.atom "heap" :: es)), some sc =>
+        match es.mapM decEntry with
+        | some tbl =>
+          let h : Impl.G.NdHeap :=
+            { kids := fun n => ((tbl.find? (fun e => e.1 = n)).map (·.2.2)).getD [],
+              isDict := fun n => ((tbl.find? (fun e => e.1 = n)).map (·.2.1)).getD false }
+          let out := Impl.G.ndVisit h mx fu r sc
+          "visited\t" ++ " ".intercalate (out.1.map (fun p => encLoc p.1 ++ "@" ++
+              (match p.2 with | .scalar => "s" | .ref i => toString i))) ++ "\t" ++
+            (match out.2 with | none => "end" | some e => "err " ++ encErr e)
+        | none => "bad-request"
+      | _, _, _, _, _ => "bad-request"
   | ["nd.find", env, q, doc, script] =>
       match (readSexp env).bind decEnv, (readSexp q).bind decQuery, decJsonAll doc, (readSexp script).bind decScript with
       | some e, some q, some d, some sc =>
